@@ -49,11 +49,14 @@ AllFaults == {"req", "param", "store", "rcstore", "die", "cancel"}
 QuickScenarios == {Seq2, Named2, Named1, Any2, Over1, Over2, Three, CapBig, OverPlain1, OverPlain2, Timed2, NamedTimed}
 C01QuickScenarios == {Seq2, Named2, Any2, Over1, Over2}
 LiveScenarios == {Named2, Any2, Over1, Over2}
+Tiny2x2 == S(<<E(<<T(1, 2, 1)>>, 0), E(<<T(2, 2, 1)>>, 0)>>, <<>>, 2)
 Tiny2 == S(<<E(<<T(1, 2, 1)>>, 0)>>, <<>>, 2)
 LiveFaultScenarios == {Tiny2}
 FaultSimScenarios == {Seq2, Named2, Tiny2, Over2, Three, OverPlain1, OverPlain2, Timed2}
 FaultScenarios == {Seq2, Named2, OverPlain1}
 C07QuickScenarios == {Seq2, Named2, Any2, Over2, OverPlain1, OverPlain2, Timed2}
 C07Scenarios == {Seq2, Named2, Over2, OverPlain1}
+\* non-test mode with the coordinator's timers: a late relative-time reset wake-up
+StaleScenarios == {Seq2, Tiny2x2}
 ThoroughScenarios == QuickScenarios \cup {ThreeB, W3, W3Any, W3Split, W3Early}
 ====
